@@ -111,7 +111,7 @@ def run(repo, chk):
         chk.expect(have.get(k, 0) >= n, 'C05.G1', f'guard kind {k}', f'found {have.get(k, 0)} {k} guard sites, need >= {n}', GEN)
 
     # ---------------- G4/G5 division ---------------------------------------------
-    n_div = 0
+    n_div = n_unsep = 0
     for p, ev in gf.inlined('arith_op_reg_arg'):
         if p.outcome == 'raise':
             continue
@@ -133,6 +133,7 @@ def run(repo, chk):
         if div_ops and div_ops != feasible:
             chk.fail('C05.G4', 'arith_op_reg_arg::Div/Mod test', f'a path is shared by {sorted(div_ops)} and {sorted(feasible - div_ops)}: '
                      'no decision separates the faulting operators from the others', GEN)
+            n_unsep += 1
             continue
         is_div = bool(div_ops)
         divmod = ['<operator class>']
@@ -157,7 +158,8 @@ def run(repo, chk):
         elif not is_div:
             chk.expect(not sk, 'C05.G4', 'arith_op_reg_arg::non-division path', 'division guard on a non-division operator '
                        '(would raise the flag spuriously)', GEN)
-    chk.floor('division paths analysed', n_div, 1)
+    if not n_unsep:     # (otherwise the missing separation has been reported above)
+        chk.floor('division paths analysed', n_div, 1)
     # who may emit Div/Mod: only through arith_map in arith_op_reg_arg
     for fname, fn in gf.methods.items():
         for n in ast.walk(fn):
@@ -329,7 +331,10 @@ def run(repo, chk):
         c09._compound_width(repo, Remap(chk, {'C09.M6': 'C05.G7'}))
         # the index / length that is checked is the value the expression denotes: an `is byte` cast hands on the low byte,
         # also to the consumers that take the fast value (otherwise a valid index raises out_of_bounds) - shared with C09.M4
-        c09.run(repo, Remap(chk, {'C09.M4': lambda c: 'C05.G5' if c.startswith('eval_expr[IntToByte]') else None}))
+        # ... and it is compared the way the guard's mnemonic says: the conditional halts the guards are built from render as
+        # themselves (an unsigned guard rendered as its signed sibling lets negative indices through) - shared with C09.M1
+        c09.run(repo, Remap(chk, {'C09.M4': lambda c: 'C05.G5' if c.startswith('eval_expr[IntToByte]') else None,
+                                  'C09.M1': lambda c: 'C05.G5' if c.startswith(('asm.H', 'halt_inversion')) else None}))
     # ---------------- F1 preemptive flag -------------------------------------------------------------
     _preemptive(repo, chk, gf)
     # guard operands must still hold the values they were loaded with when the guard executes
